@@ -188,6 +188,30 @@ def _attempt(payload):
             expr.set_id_manager(IdManager([expr], db, 4))
             v = expr.get_value_c(database=db, prepare_ids=False, number_of_draws=4)
             out['value'] = np.asarray(v, float).tolist()
+        elif entry == 'rejected_then_valid_on_shared_objects':
+            # history: the faulty formula is the valid twin (same objects) plus a faulty term; after the refusal the
+            # valid twin itself must still evaluate to the same numbers (the refusal must not leave ids behind)
+            twin, _ = build.build(payload['twin_spec'])
+            before = np.asarray(twin.get_value_c(database=db, prepare_ids=True), float)
+            fault_only = dict(spec)
+            fault_only['ast'] = payload['fault_node']
+            fexpr, _ = build.build(fault_only)
+            whole = twin + fexpr
+            refused = None
+            try:
+                whole.get_value_c(database=db, prepare_ids=True, number_of_draws=4)
+            except bexc.BiogemeError as e:
+                refused = ('library', str(e)[:300])
+            except BaseException as e:
+                refused = (type(e).__name__, str(e)[:300])
+            out['refused'] = refused
+            if refused is not None and refused[0] != 'RuntimeError':
+                after = np.asarray(twin.get_value_c(database=db, prepare_ids=True), float)
+                out['twin_same_after_refusal'] = bool(np.array_equal(before, after, equal_nan=True))
+                after2 = np.asarray(twin.get_value_and_derivatives(database=db, prepare_ids=True, gradient=False, hessian=False,
+                                                                   bhhh=False, aggregation=False).functions, float)
+                out['twin_same_after_refusal'] = out['twin_same_after_refusal'] and bool(np.array_equal(before, after2, equal_nan=True))
+            out['value'] = before.tolist()
         elif entry == 'BIOGEME_secondary_formula':
             # the faulty formula is not the log likelihood but another entry of the dictionary of formulas
             from biogeme.biogeme import BIOGEME
@@ -429,6 +453,20 @@ def _plant_case(case, rec):
             entries.append('prepared_ids')
         if rr.random() < 0.35 and kind not in ('beta_named_as_column', 'free_and_fixed_same_name'):
             entries.append('BIOGEME_secondary_formula')
+        if rr.random() < 0.3 and kind in ('unknown_column', 'draws_outside_mc', 'rv_outside_integrate',
+                                           'logit_choice_not_in_utilities', 'logit_av_keys_differ'):
+            res = attempt(fs, 'rejected_then_valid_on_shared_objects', twin_spec=base, fault_node=node)
+            rec.ev()
+            rec.c('rejected_then_valid_runs')
+            if res.get('outcome') == 'ok':
+                if res.get('refused') is None:
+                    rec.violation(f'C12/{kind}-added-to-valid-formula-not-rejected', 'valid formula + faulty term accepted', witness)
+                elif res.get('twin_same_after_refusal') is False:
+                    rec.violation('C12/valid-formula-changes-after-a-refused-evaluation-sharing-its-objects',
+                                  f'after the refusal ({res["refused"]}) the valid twin evaluates differently', witness)
+            elif res.get('outcome') == 'exc':
+                rec.violation('C12/valid-formula-rejected-after-a-refused-evaluation-sharing-its-objects',
+                              f'{res.get("type")}: {res.get("msg", "")[:300]}', witness)
         for entry in entries:
             res = attempt(fs, entry, twin_spec=base) if entry == 'BIOGEME_secondary_formula' else attempt(fs, entry)
             rec.key([fs['ast'], kind, path, entry])
